@@ -23,7 +23,8 @@ Fixpoint assign_units (m : PM.t N) (units : list unit) (i : N) : list unit :=
 
 Definition assemble (v : variant) (L : logical) : res trie :=
   do '(tv, asg) <- tail_complete (lg_bin L) (lg_sufs L);
-  if negb (forallb (fun a => fst a <? lenN (lg_units L)) asg) then Fault OobArr else   (* setter: m_units[npos] *)
+  let n := lenN (lg_units L) in
+  if negb (forallb (fun a => fst a <? n) asg) then Fault OobArr else   (* setter: m_units[npos] *)
   let units := assign_units (asg_map asg) (lg_units L) 0 in
   do terms <- bv_of_bits (lg_terms L) true true;
   do bc <- bc_build v units (lg_leaves L);
@@ -171,8 +172,8 @@ Definition lwf_b (L : logical) (K : list key) : bool :=
   forallb (fun sn => suf_okb (lg_bin L) (fst sn) && (snd sn <? n) && vget (v_leaves V) (snd sn) false) (lg_sufs L) &&
   nodup_fast (map snd (lg_sufs L)) &&
   (fold_right (fun sn acc => lenN (fst sn) + 1 + acc) 1 (lg_sufs L) <? 2^60) &&
-  forallb_idx (fun i u => negb (vget (v_leaves V) i false) || in_set (set_of (map snd (lg_sufs L))) i || (fst u =? 0))
-              (lg_units L) 0 &&
+  (let SS := set_of (map snd (lg_sufs L)) in
+   forallb_idx (fun i u => negb (vget (v_leaves V) i false) || in_set SS i || (fst u =? 0)) (lg_units L) 0) &&
   match extract (S (N.to_nat (lg_maxlen L))) V 0 with
   | None => false
   | Some T =>
@@ -198,9 +199,11 @@ Definition disassemble (P : trie) : logical :=
   let terms := map (fun u => ok_or false (bv_get (t_terms P) u)) idx in
   let units := map (fun u => ((if ok_or false (bc_is_leaf (t_bc P) u) then 0 else ok_or 0 (bc_base (t_bc P) u)),
                               ok_or 0 (bc_check (t_bc P) u))) idx in
+  let fuel := S (N.to_nat (tv_size (t_tail P))) in      (* computed once, shared by every decode below *)
+  let dec := if tv_bin_mode (t_tail P) then dec_bin fuel (t_tail P) else dec_nul fuel (t_tail P) in
   let sufs := flat_map (fun u => if ok_or false (bc_is_leaf (t_bc P) u) then
                                    let tp := ok_or 0 (bc_link (t_bc P) u) in
-                                   if tp =? 0 then [] else [(ok_or [] (t_decode (t_tail P) tp), u)]
+                                   if tp =? 0 then [] else [(ok_or [] (dec tp), u)]
                                  else []) idx in
   mkL (t_nkeys P) (alist (ct_table (t_table P))) (alist (ct_alpha (t_table P))) (ct_maxlen (t_table P))
       (t_bin_mode P) terms leaves units sufs.
